@@ -78,6 +78,12 @@ var fields = map[string]field{
 		b.WriteString(e.RequestURL.RawQuery)
 	},
 	"$request_host": func(b *bytes.Buffer, e *Event) {
+		// cannot use e.Request.Host if there is a request url since
+		// the host option of a route may have modified it
+		if e.RequestURL != nil {
+			b.WriteString(e.RequestURL.Host)
+			return
+		}
 		if e.Request == nil {
 			return
 		}
